@@ -6,6 +6,7 @@ import (
 
 	casbin "github.com/casbin/casbin/v2"
 	"github.com/casbin/casbin/v2/model"
+	"github.com/casbin/casbin/v2/util"
 )
 
 // C16: RBAC introspection APIs agree with enforcement.
@@ -800,6 +801,104 @@ func c16TwoDefs(c *Ctx, n int) {
 	}
 }
 
+const c16DomPatText = `[request_definition]
+r = sub, dom, obj, act
+[policy_definition]
+p = sub, dom, obj, act
+[role_definition]
+g = _, _, _
+[policy_effect]
+e = some(where (p.eft == allow))
+[matchers]
+m = g(r.sub, p.sub, r.dom) && (r.dom == p.dom || p.dom == "*") && r.obj == p.obj && r.act == p.act
+`
+
+// (the matcher does not contain the text keyMatch(r_dom, p_dom): with it casbin registers the
+// domain matching function by itself when the enforcer is built)
+// domain patterns (implementation only): grouping rules and permissions under the pattern domain
+// "*" next to concrete domains, the domain matching function registered before the first Enforce
+// or after every request has been asked once.  The property's first two clauses, per concrete
+// domain (also one that has no rule of its own): a request is allowed iff a listed implicit
+// permission grants it; the implicit roles are the other names for which g() holds.
+func c16DomainPatterns(c *Ctx, n int) {
+	names := []string{"u1", "u2", "r1", "r2", "r3"}
+	gdoms := []string{"*", "d1", "d2"}
+	qdoms := []string{"d1", "d2", "d3"}
+	perms := [][]string{{"data1", "read"}, {"data2", "read"}}
+	for k := 0; k < n; k++ {
+		late := k%2 == 1
+		mm, _ := model.NewModelFromString(c16DomPatText)
+		e, _ := casbin.NewEnforcer(mm)
+		var trace []string
+		if !late {
+			e.AddNamedDomainMatchingFunc("g", "keyMatch", util.KeyMatch)
+		}
+		for i := 1 + c.Rng.Intn(5); i > 0; i-- {
+			u, r, d := names[c.Rng.Intn(len(names))], names[2+c.Rng.Intn(3)], gdoms[c.Rng.Intn(len(gdoms))]
+			if u == r {
+				continue
+			}
+			if ok, _ := e.AddGroupingPolicy(u, r, d); ok {
+				trace = append(trace, fmt.Sprintf("g(%s,%s,%s)", u, r, d))
+			}
+		}
+		for i := 1 + c.Rng.Intn(4); i > 0; i-- {
+			s, d, p := names[c.Rng.Intn(len(names))], gdoms[c.Rng.Intn(len(gdoms))], perms[c.Rng.Intn(len(perms))]
+			if ok, _ := e.AddPolicy(s, d, p[0], p[1]); ok {
+				trace = append(trace, fmt.Sprintf("p(%s,%s,%s,%s)", s, d, p[0], p[1]))
+			}
+		}
+		if late {
+			for _, u := range names {
+				for _, d := range qdoms {
+					for _, p := range perms {
+						_, _ = e.Enforce(u, d, p[0], p[1])
+					}
+				}
+			}
+			e.AddNamedDomainMatchingFunc("g", "keyMatch", util.KeyMatch)
+			trace = append(trace, "every request asked, then AddNamedDomainMatchingFunc(g, keyMatch)")
+		}
+		id := fmt.Sprintf("c16.dompat.%d", k)
+		rm := e.GetRoleManager()
+		for _, u := range names {
+			for _, d := range qdoms {
+				ip, err := e.GetImplicitPermissionsForUser(u, d)
+				if err != nil {
+					c.Direct(id, "GetImplicitPermissionsForUser failed: "+err.Error(), strings.Join(trace, " "))
+					continue
+				}
+				for _, p := range perms {
+					listed := false
+					for _, r := range ip {
+						if len(r) == 4 && r[2] == p[0] && r[3] == p[1] {
+							listed = true
+						}
+					}
+					ok, err := e.Enforce(u, d, p[0], p[1])
+					if err != nil || ok != listed {
+						c.Direct(id, fmt.Sprintf("domain patterns: Enforce(%s,%s,%s,%s)=%v (err %v) but GetImplicitPermissionsForUser(%s,%s)=%v", u, d, p[0], p[1], ok, err, u, d, ip), strings.Join(trace, " "))
+					}
+				}
+				ir, err := e.GetImplicitRolesForUser(u, d)
+				var want []string
+				for _, r := range names {
+					if r == u {
+						continue
+					}
+					if hl, _ := rm.HasLink(u, r, d); hl {
+						want = append(want, r)
+					}
+				}
+				if err != nil || !c16Eq(sortedStrings(want), sortedStrings(ir)) {
+					c.Direct(id, fmt.Sprintf("domain patterns: GetImplicitRolesForUser(%s,%s)=%v (err %v) but the other names for which g() holds are %v", u, d, ir, err, want), strings.Join(trace, " "))
+				}
+			}
+		}
+		c.Count("domain-patterns(implementation only)")
+	}
+}
+
 // names that are the empty string and the policy-free branch: the model follows the code there
 // too (correspondence), the property's predicate is only evaluated inside its guards
 func c16Corner(c *Ctx) {
@@ -858,6 +957,7 @@ func init() {
 			c16Chains(c)
 			c16Random(c, 1000)
 			c16TwoDefs(c, 400)
+			c16DomainPatterns(c, 400)
 			parts = append(parts, "chains and cycles of 9,10,11,12 edges (both families); 1000 seeded random graphs on 4..14 names with policies of <=5 rules")
 		} else {
 			a := c16Exhaustive(c, "p3", "plain", n3, []string{""}, true, objs, rw, 3, 0, false)
@@ -869,6 +969,7 @@ func init() {
 			c16Chains(c)
 			c16Random(c, 10000)
 			c16TwoDefs(c, 6000)
+			c16DomainPatterns(c, 4000)
 			parts = append(parts, "chains and cycles of 9,10,11,12 edges (both families); 10000 seeded random graphs on 4..14 names with policies of <=5 rules")
 		}
 		c16Corner(c)
